@@ -339,12 +339,13 @@ Section Layer.
   Variable str_ltb : string -> string -> bool.
   Variable idfun : option (string -> string).
   Variable v0 : bool.
+  Variable v1 : bool.
   Variable prog : list (call M writer rmask).
   Variable lossy_of : nat -> option (option string).
 
   Notation lrun := (lrun r_filter equiv id_tok id_of val_tok val_of m_eqb m_empty w_validate w_merge clock_at
-                         str_ltb idfun v0 prog lossy_of).
-  Notation run := (run m_eqb m_empty w_validate w_merge clock_at str_ltb idfun v0 prog).
+                         str_ltb idfun v0 v1 prog lossy_of).
+  Notation run := (run m_eqb m_empty w_validate w_merge clock_at str_ltb idfun v0 v1 prog).
 
   (* The pipelines and the consumers' receives never influence the store, the writers or the bus:
      whatever the reader pace, the transition-system component of a layered run is the run of the
@@ -360,7 +361,7 @@ Section Layer.
   (* a reader step changes nothing but the pipeline of its own subscriber *)
   Lemma recv_step_local t st l :
     In l (snd (lstep r_filter equiv id_tok id_of val_tok val_of m_eqb m_empty w_validate w_merge clock_at
-                     str_ltb idfun v0 prog lossy_of st (SRecv t))) ->
+                     str_ltb idfun v0 v1 prog lossy_of st (SRecv t))) ->
     exists l0, In l0 (snd st) /\ (l = l0 \/ (ls_tid l0 = t /\ l = recv r_filter equiv id_of val_of l0)).
   Proof.
     simpl. intros H. apply in_map_iff in H. destruct H as (l0 & E & Hin). exists l0. split; [exact Hin|].
